@@ -205,6 +205,7 @@ type xctx struct {
 	lww  *tsdrv.LWW
 	nser int
 	agg  []XAgg // the aggregate results observed (replayed on the Coq model of the file-cursor walk by the driver)
+	zone []ReadObs
 }
 
 // XAgg: the combined result of one call of an aggregate read for one series, as the real store returned it
@@ -276,6 +277,11 @@ func (c *xctx) runRead(x XRead) (fails []XFail) {
 		if err != nil {
 			return []XFail{{Op: c.op, Read: x, What: "decode: " + err.Error()}}
 		}
+		ro := ReadObs{Tmin: a, Tmax: b, Fields: x.Fields, Asc: !x.Desc, Kind: "zone", Rows: map[string][]tsdrv.OutRow{}}
+		for s, rows := range got {
+			ro.Rows[strconv.Itoa(s)] = rows
+		}
+		c.zone = append(c.zone, ro)
 		for s := 0; s < c.nser; s++ {
 			if want := c.expect(s, x.Fields, a, b, x.Desc); !tsdrv.EqRows(want, got[s]) {
 				fails = append(fails, XFail{Op: c.op, Read: x, Series: s, Want: want, Got: got[s], What: classify(want, got[s], !x.Desc)})
@@ -428,9 +434,9 @@ func (c *xctx) runRead(x XRead) (fails []XFail) {
 }
 
 // extraReads generates and runs one read of every enabled kind and returns the oracle failures.
-func extraReads(opIdx int, sh *tsdrv.Shard, lww *tsdrv.LWW, r *gen.Rand, nser int, files []tsdrv.File, kinds map[string]int) (fails []XFail, n int, aggs []XAgg) {
+func extraReads(opIdx int, sh *tsdrv.Shard, lww *tsdrv.LWW, r *gen.Rand, nser int, files []tsdrv.File, kinds map[string]int) (fails []XFail, n int, aggs []XAgg, zone []ReadObs) {
 	c := &xctx{op: opIdx, sh: sh, lww: lww, nser: nser}
-	defer func() { aggs = c.agg }()
+	defer func() { aggs, zone = c.agg, c.zone }()
 	only := envKinds()
 	if only["zone"] {
 		a, b := pickRangeX(r, files)
